@@ -144,7 +144,7 @@ func validKeyVerifyRule(P *Program, R *Report) {
 	}})
 	mp(P, R, rule, kVKVerify+":group", "accept => BuildGroup(GroupPrime) succeeded", fn, acc, &MustPass{Match: func(a Atom) bool {
 		c, idx := callAndResult(a.V)
-		return c != nil && calleeName(c) == "zkproof.BuildGroup" && idx == 1 && a.Want == True && desc(c.Call.Args[0]) == gp
+		return c != nil && calleeIs(c, "zkproof.BuildGroup") && idx == 1 && a.Want == True && desc(c.Call.Args[0]) == gp
 	}})
 }
 
@@ -948,7 +948,7 @@ func validKeyRejectionsRule(P *Program, R *Report) {
 				return "primality test", true
 			case isStructureCallOn(Atom{V: a.V, Want: True}) || (strings.Contains(strings.ToLower(calleeName(c)), "structure") && a.Want == False):
 				return "structure check " + calleeName(c), true
-			case calleeName(c) == "zkproof.BuildGroup" && idx == 1 && a.Want == False:
+			case calleeIs(c, "zkproof.BuildGroup") && idx == 1 && a.Want == False:
 				return "group cannot be built", true
 			}
 			return "call " + calleeName(c), false
@@ -994,7 +994,7 @@ func rangeParametersRule(P *Program, R *Report) {
 		allInstrs(fn, func(i ssa.Instruction) {
 			switch x := i.(type) {
 			case *ssa.Call:
-				if calleeName(x) == "keyproof.newPedersenRangeProofStructure" {
+				if calleeIs(x, "keyproof.newPedersenRangeProofStructure") {
 					check(fn, x.Pos(), x.Call.Args[1], x.Call.Args[2], "range-structure")
 				}
 			case *ssa.Store:
